@@ -187,7 +187,7 @@ func (c *context) EmitLexer() bool {
 			slices.SortFunc(inputs, rang3.Compare)
 
 			var stateFlags uint32
-			if state.Accept && state.NonGreedy {
+			if state.Accept && state.NonGreedyAccept {
 				stateFlags = stateNonGreedyAcceptingFlag
 			}
 
